@@ -164,6 +164,16 @@ second paragraph after a blank line */
     #[derive(TS)]
     #[ts(export_to = "shared.ts")]
     pub struct Q { pub q: i32 }
+    // a dependency whose directory name contains ` from `, imported by two types that share a file (the merged header is re-parsed)
+    #[derive(TS)]
+    #[ts(export_to = "replies from server/reply.ts")]
+    pub struct RF { pub r: i32 }
+    #[derive(TS)]
+    #[ts(export_to = "client/types.ts")]
+    pub struct CA { pub r: RF }
+    #[derive(TS)]
+    #[ts(export_to = "client/types.ts")]
+    pub struct CB { pub r: RF, pub p: P1 }
     // the same type first inlined, then referred to by name: the named reference still needs the type's own file
     #[derive(TS)]
     #[ts(export_to = "inline_then_name.ts")]
@@ -199,7 +209,7 @@ fn export_step(kind: &str, ty: &str, dir: Option<&str>) -> Result<(), String> {
         "export_all_to" => <$t>::export_all_to(dir.unwrap()),
         _ => panic!("unknown step kind"),
     } } }
-    let r = match ty { "A" => go!(hist::A), "B" => go!(hist::B), "C" => go!(hist::C), "D" => go!(hist::D), "M" => go!(hist::M), "N" => go!(hist::N), "AL" => go!(hist::AL), "RS" => go!(hist::RS), "VA" => go!(hist::VA), "IR" => go!(hist::IR), "Q" => go!(hist::Q), "Pair" => go!(hist::Pair<i32>), "Pair2" => go!(hist::Pair2), "Pair3" => go!(hist::Pair3), "GR" => go!(hist::GR<Vec<hist::P2>>), "Z" => go!(hist::Z), "W1" => go!(hist::W1), "W2" => go!(hist::W2), "P1" => go!(hist::P1), "P2" => go!(hist::P2), "P3" => go!(hist::P3), _ => panic!("unknown type") };
+    let r = match ty { "A" => go!(hist::A), "B" => go!(hist::B), "C" => go!(hist::C), "D" => go!(hist::D), "M" => go!(hist::M), "N" => go!(hist::N), "AL" => go!(hist::AL), "RS" => go!(hist::RS), "VA" => go!(hist::VA), "IR" => go!(hist::IR), "CA" => go!(hist::CA), "CB" => go!(hist::CB), "Q" => go!(hist::Q), "Pair" => go!(hist::Pair<i32>), "Pair2" => go!(hist::Pair2), "Pair3" => go!(hist::Pair3), "GR" => go!(hist::GR<Vec<hist::P2>>), "Z" => go!(hist::Z), "W1" => go!(hist::W1), "W2" => go!(hist::W2), "P1" => go!(hist::P1), "P2" => go!(hist::P2), "P3" => go!(hist::P3), _ => panic!("unknown type") };
     r.map_err(|e| format!("{e:?}"))
 }
 
@@ -228,6 +238,12 @@ pub fn export_history(req: &Value) -> Value {
             let bak = f.with_extension("bak");
             if kind == "hide" { let _ = std::fs::rename(&f, &bak); let _ = std::fs::create_dir_all(&f); }
             else { let _ = std::fs::remove_dir_all(&f); let _ = std::fs::rename(&bak, &f); }
+            results.push(json!(kind));
+            continue;
+        }
+        if kind == "setenv" {
+            // TS_RS_EXPORT_DIR changed while the process runs
+            std::env::set_var("TS_RS_EXPORT_DIR", st[1].as_str().unwrap());
             results.push(json!(kind));
             continue;
         }
@@ -509,6 +525,10 @@ mod wins {
     #[serde(tag = "serde_tag")]
     #[ts(tag = "tsTag")]
     pub enum T1 { A { x: i32 } }
+    // keyword keys and keys ts-rs does not know inside a serde list must not make the rest of the list disappear
+    #[derive(TS, Serialize)]
+    #[serde(crate = "serde", rename = "FromSerdeAfterCrate", deny_unknown_fields)]
+    pub struct S2 { #[serde(rename = "wireField", skip_serializing_if = "Option::is_none")] pub a_b: Option<i32> }
 }
 fn ts_wins() -> Value {
     use ts_rs::TS;
@@ -522,6 +542,7 @@ fn ts_wins() -> Value {
     chk("enum V1: variant renames", wins::V1::inline(), vec!["\"tsName\"", "\"only_serde\"", "\"onlyTs\"", "SOME_FIELD", "\"plainVariant\""], vec!["wire_name", "some-field", "plain_variant"]);
     chk("struct S1: container and field renames", wins::S1::decl(), vec!["type TsName", "tsField", "onlySerde", "EF"], vec!["SerdeName", "wire:", "e_f"]);
     chk("enum T1: tag", wins::T1::inline(), vec!["\"tsTag\""], vec!["serde_tag"]);
+    chk("struct S2: keyword key `crate` and unknown keys in serde lists", wins::S2::decl(), vec!["type FromSerdeAfterCrate", "wireField"], vec!["S2", "a_b"]);
     json!({"cases": out, "agree": agree})
 }
 
